@@ -3,7 +3,6 @@ package router
 import (
 	"errors"
 	"fmt"
-	"maps"
 	"slices"
 	"strconv"
 	"sync"
@@ -1199,8 +1198,11 @@ func (r *realm) cleanSessionDetails(details wamp.Dict) wamp.Dict {
 				clean[k] = v
 			}
 		}
+		// The result is handed out in meta events and meta procedure results:
+		// it must not share any container with the session's own details.
+		clean = wamp.NormalizeDict(clean)
 	} else {
-		clean = details
+		clean = wamp.NormalizeDict(details)
 	}
 
 	// If there is no transport detail, all done.
@@ -1213,12 +1215,6 @@ func (r *realm) cleanSessionDetails(details wamp.Dict) wamp.Dict {
 	authDict := wamp.DictChild(transDict, "auth")
 	if authDict == nil {
 		return clean
-	}
-
-	// If a copy was not previously needed, it is now.
-	if !r.metaStrict {
-		clean = make(wamp.Dict, len(details))
-		maps.Copy(clean, details)
 	}
 
 	// If details.transport.auth exists, then provide version of transport
